@@ -20,13 +20,14 @@ Trace == ndJsonDeserialize(TraceFile)
 
 VARIABLES l,        \* next line
           ghost,    \* node -> member list rebuilt from its events
-          gcase     \* replay case the ghost belongs to (0 in simulations)
+          gcase,    \* replay case the ghost belongs to (0 in simulations)
+          held      \* <<node, member>> -> the record the node held after its last recorded step (replay cases)
 
 \* Exercise statistics (how many steps made a predicate's antecedent true, and how many
 \* distinct step classes) are kept in TLC registers, not in the state: one worker, linear trace.
 Reg(i) == 100 + i
 
-tvars == <<l, ghost, gcase>>
+tvars == <<l, ghost, gcase, held>>
 
 SetOf(s) == {s[i] : i \in DOMAIN s}
 
@@ -61,8 +62,26 @@ Conforms(e) ==
 Valid(e) == e.case = gcase /\ e.n \in DOMAIN ghost
 GhostBefore(e) == IF Valid(e) THEN ghost[e.n] ELSE e.membersPre
 
+\* What the node holds is what its last step left, whatever a step that was already under way believes: a step
+\* whose own view of the record (read when it began) is older than that must not move the record backwards from
+\* what the node held.  (Critical sections that are really mutually exclusive make held = pre; the clause bites
+\* when a step lets another one in - e.g. a lock released around a callback - and then carries on with a stale view.)
+HKey(e) == <<e.n, e.claim.node>>
+HeldKnown(e) == e.ev = "NodeOp" /\ e.case # 0 /\ e.case = gcase /\ HKey(e) \in DOMAIN held
+Core(r) == <<r.state, r.inc>>
+C01_HeldForward(e) ==
+  (HeldKnown(e) /\ Core(held[HKey(e)]) # Core(e.pre) /\ ~IsAbsent(held[HKey(e)]) /\ ~IsAbsent(e.post))
+     => (KeyLeq(held[HKey(e)], e.post) \/ LegitReclaim([e EXCEPT !.pre = held[HKey(e)]]))
+HeldAfter(e) ==
+  LET base == IF e.case = gcase THEN held ELSE << >> IN
+  IF e.ev = "NodeOp" /\ e.case # 0
+  THEN [k \in DOMAIN base \cup {HKey(e)} |-> IF k = HKey(e) THEN e.post ELSE base[k]]
+  ELSE IF e.ev = "Reap" THEN << >> ELSE base
+
 Judge(e) ==
   /\ \A i \in DOMAIN StepProps : Report("VERDICT", StepProps[i], e, StepHolds(StepProps[i], e))
+  /\ Report("VERDICT", "C01_HeldForward", e, C01_HeldForward(e))
+  /\ Report("DRIFT", "continuity", e, HeldKnown(e) => Core(held[HKey(e)]) = Core(e.pre))
   /\ (e.ev \in {"NodeOp", "Reap"}) =>
         /\ Report("VERDICT", "C07_Order", e, C07_Order(e, GhostBefore(e)))
         /\ Report("VERDICT", "C07_Log", e, C07_Log(e, GhostBefore(e)))
@@ -80,13 +99,14 @@ GhostAfter(e) ==
     [] e.ev = "StrayEvent" /\ Valid(e) -> With(ghost, e.n, ApplyEvents(ghost[e.n], e.events, 1))
     [] OTHER                        -> Keep(e)
 
-TInit == /\ l = 1 /\ ghost = << >> /\ gcase = -1
+TInit == /\ l = 1 /\ ghost = << >> /\ gcase = -1 /\ held = << >>
          /\ \A i \in DOMAIN StepProps : TLCSet(Reg(i), <<0, {}>>)
 
 TStep == /\ l <= Len(Trace)
          /\ LET e == Norm(Trace[l]) IN
               /\ Judge(e)
               /\ ghost' = GhostAfter(e)
+              /\ held' = HeldAfter(e)
               /\ gcase' = e.case
               /\ \A i \in DOMAIN StepProps :
                     IF StepAnte(StepProps[i], e)
@@ -98,7 +118,7 @@ TDone == /\ l = Len(Trace) + 1
          /\ \A i \in DOMAIN StepProps :
                PrintT(<<"STAT", StepProps[i], TLCGet(Reg(i))[1], Cardinality(TLCGet(Reg(i))[2])>>)
          /\ PrintT(<<"DONE", Len(Trace)>>)
-         /\ l' = l + 1 /\ UNCHANGED <<ghost, gcase>>
+         /\ l' = l + 1 /\ UNCHANGED <<ghost, gcase, held>>
 
 TSpec == TInit /\ [][TStep \/ TDone]_tvars
 =============================================================================
